@@ -9,7 +9,7 @@ os.makedirs(dst, exist_ok=True)
 for f in ("patch.diff", "demo.py", "notes.md"):
     if os.path.exists(os.path.join(src, f)):
         shutil.copy(os.path.join(src, f), dst)
-log = f"/tmp/try_seed_{prop}.log"
+log = os.environ.get("SEEDLOG") or f"/tmp/try_seed_{prop}.log"
 keys = []
 if os.path.exists(log):
     for l in open(log):
@@ -26,7 +26,7 @@ meta = {
         "baseline": "tools/confirm_seed.sh: 228/228 stable tests pass with the change applied (scratch worktree under /tmp, removed afterwards)",
         "demo": "demo.py exits 0 without the change and 1 with it",
     },
-    "ran": [f"tools/try_seed.sh {prop} seeded/{name}/patch.diff   (git -C /repo apply; ./check {prop} --tier quick; git -C /repo checkout -- .)"],
+    "ran": [os.environ.get("SEEDRAN") or f"tools/try_seed.sh {prop} seeded/{name}/patch.diff   (git -C /repo apply; ./check {prop} --tier quick; git -C /repo checkout -- .)"],
     "caught_by": {"check": f"./check {prop} --tier quick", "exit": 1, "violation_keys": sorted(set(keys))[:8]},
     "caught_before_strengthening": caught0 == "yes",
 }
